@@ -297,7 +297,7 @@ NEG_RENAMED = [
 
 
 # an even number of classical negation signs in front of an atom is no sign at all - in bodies, in formulas of either kind, in heads
-DOUBLE_NEG = [('#program always.\n{ q }.\n:- not &tel { > - -q }.\n', '#program always.\n{ q }.\n:- not &tel { > q }.\n'),
+DOUBLE_NEG = [('#program always.\n{ q }.\n#program initial.\n:- not &tel { > - -q }.\n', '#program always.\n{ q }.\n#program initial.\n:- not &tel { > q }.\n'),
               ('#program always.\n{ q(1) }.\n-q(1) :- not q(1).\ns :- not &tel { < - - -q(1) }.\n', '#program always.\n{ q(1) }.\n-q(1) :- not q(1).\ns :- not &tel { < -q(1) }.\n'),
               ('#program initial.\n{ c }.\n&tel { - -q | > - - -r(1) } :- c.\n', '#program initial.\n{ c }.\n&tel { q | > -r(1) } :- c.\n'),
               ('#program always.\n{ q }.\n:- not &del { ? q .>? q }.\n', '#program always.\n{ q }.\n:- not &del { ? q ;; &true .>? q } , not q.\n:- not &del { ? q .>? q }.\n')]
